@@ -10,7 +10,7 @@ MODULES = ["GroupbyVerif.Props.C18"]
 RULE = ("the full table (public operation x array argument x perturbation) is enumerated in both tiers: ~45 operations (all GroupBy reductions, "
         "transform, var/std/median/quantile/apply/agg/ratio/subset_ratio/density, cumulative, rolling, shift/diff, ema with times, head/tail/nth, "
         "group_nearby_members, crosstab, and the top-level ema / ema_grouped) x each of their array arguments (values, second values, boolean mask, "
-        "timestamps) x {length off by -3..+3, permuted / shifted / duplicated pandas index}; expected outcome: an exception for every misaligned argument, "
+        "timestamps) x {length off by -3..+3, permuted / shifted / duplicated pandas index}; the operations accepting them also with datetime64 (naive and tz-aware), timedelta64, int32 and bool values, and values given as DataFrame / list of two inputs / polars, and a misaligned second key; expected outcome: an exception for every misaligned argument, "
         "a result for the aligned call; base data varies with the seed; non-trivial = every perturbed call; distinct = distinct (operation, argument, perturbation)")
 ASSUMPTIONS = ["the untimed top-level ema(values) has a single array argument, so nothing to be misaligned with: only its aligned call is exercised",
                "integer-position masks and slices are exempt from the length rule by design",
@@ -24,6 +24,8 @@ ARGS = {"size": ["mask"], "cumcount": ["mask"], "ratio": ["values", "values2", "
         "ema_timed": ["values", "mask", "times"], "head": ["values"], "tail": ["values"], "nth": ["values"], "nearby": ["values"],
         "crosstab": ["values", "mask", "columns"], "top_ema": [], "top_ema_timed": ["values", "times"],
         "top_ema_grouped": ["values", "mask", "group_key"], "top_ema_grouped_timed": ["values", "mask", "times"], "quantile": ["values", "mask"]}
+TEMPORAL_OK = ["count", "min", "max", "first", "last", "T:max", "cummin", "cummax", "rolling_min", "rolling_max", "shift", "diff", "head", "tail", "nth"]
+VKINDS = ["datetime", "datetime_tz", "timedelta", "int", "bool"]
 XOPS = ["sum", "mean", "min", "first", "count", "var", "agg", "T:sum", "cumsum", "cummax", "rolling_sum", "rolling_max", "shift", "diff", "ema", "head", "nth"]
 XCONT = ["frame", "list2", "polars"]
 PERTURB = [("len", d) for d in (-3, -2, -1, 1, 2, 3)] + [("index", k) for k in ("permuted", "shifted", "duplicated")]
@@ -59,6 +61,16 @@ def gen_cases(tier, rng):
                         continue
                     for container in (["series"] if p[0] == "index" else ["ndarray", "series"]):
                         yield dict(op=op, arg=arg, perturb=list(p), container=container, **base)
+        # other value dtypes (temporal values are converted before the kernels: the index must be validated before that)
+        for op in TEMPORAL_OK:
+            for vkind in VKINDS:
+                yield dict(op=op, arg=None, perturb=None, vkind=vkind, **base)
+                for arg in ARGS.get(op, ["values", "mask"]):
+                    for p in PERTURB:
+                        if (p[0] == "len" and (n + p[1] < 0 or abs(p[1]) > 1)) or _same_index(p, n):
+                            continue
+                        for container in (["series"] if p[0] == "index" else ["ndarray", "series"]):
+                            yield dict(op=op, arg=arg, perturb=list(p), container=container, vkind=vkind, **base)
         # richer value containers: DataFrame, list of two inputs (the second one misaligned), polars, and a second key
         for op in XOPS:
             for container in XCONT:
@@ -82,9 +94,9 @@ def evaluate(case, drv):
 
     n, op = case["n"], case["op"]
     arg, perturb = case["arg"], case["perturb"]
-    key = repr((op, arg, perturb, case.get("container"), n))
-    res = dict(tags=[f"op:{op}", f"arg:{arg}", f"perturb:{perturb[0] if perturb else 'aligned'}", f"cont:{case.get('container')}"],
-               size=n, key=key, nontrivial=True, bucket=(op, arg, perturb[0] if perturb else "aligned", case.get("container")))
+    key = repr((op, arg, perturb, case.get("container"), n, case.get("vkind")))
+    res = dict(tags=[f"op:{op}", f"arg:{arg}", f"perturb:{perturb[0] if perturb else 'aligned'}", f"cont:{case.get('container')}", f"vkind:{case.get('vkind', 'float')}"],
+               size=n, key=key, nontrivial=True, bucket=(op, arg, perturb[0] if perturb else "aligned", case.get("container"), case.get("vkind")))
     base_index = pd.Index([f"r{i}" for i in range(n)])
     cont = case.get("container", "series")
 
@@ -103,6 +115,19 @@ def evaluate(case, drv):
                 index = pd.Index([f"r{i // 2}" for i in range(n)])
         if kind == "values":
             a = np.array([(case["vals"] * 5)[i] for i in range(length)], dtype=np.float64)
+            vk = case.get("vkind", "float")
+            if vk in ("datetime", "datetime_tz"):
+                a = (a.astype("int64") * 86_400 + 1_600_000_000).view("datetime64[s]").astype("datetime64[ns]")
+            elif vk == "timedelta":
+                a = a.astype("int64").view("timedelta64[s]") if False else a.astype("int64").astype("timedelta64[s]")
+            elif vk == "int":
+                a = a.astype("int32")
+            elif vk == "bool":
+                a = a > 2
+            if vk == "datetime_tz":
+                use_series = cont == "series" or (name == arg and perturb and perturb[0] == "index")
+                ser = pd.Series(a, index=index, name=name).dt.tz_localize("UTC").dt.tz_convert("Europe/Dublin")
+                return ser if use_series else pd.DatetimeIndex(ser)
         elif kind == "mask":
             a = np.array([i % 3 != 0 for i in range(length)], dtype=bool)
         elif kind == "times":
